@@ -479,13 +479,15 @@ def concatChunkss (c : Concat) : Option Chunks :=
 def concatBlock (c : Concat) (coords : List Nat) : Option (List Nat) :=
   (concatChunkss c).bind (fun ch => extents ch coords)
 
-/-- `_array_slices(offsets, start, stop)`: (array, lo, hi) pieces; `lens` = lengths along the axis. -/
-def arraySlices : List Nat → Nat → Nat → Nat → List (Nat × Nat × Nat)
-  | [], _, _, _ => []
-  | n :: rest, off, start, stop =>
+/-- `_array_slices(offsets, start, stop)`: the pieces (array index, lo, hi) — positions within the array —
+that make up `[start, stop)` of the concatenated axis; `lens` = the arrays' lengths along the axis
+(`i`, `off`: index and offset of the first array of the list). -/
+def arraySlices : List Nat → Nat → Nat → Nat → Nat → List (Nat × Nat × Nat)
+  | [], _, _, _, _ => []
+  | n :: rest, i, off, start, stop =>
     let lo := max start off
     let hi := min stop (off + n)
-    (if lo < hi then [(off, lo - off, hi - off)] else []) ++ arraySlices rest (off + n) start stop
+    (if lo < hi then [(i, lo - off, hi - off)] else []) ++ arraySlices rest (i + 1) (off + n) start stop
 
 /-! ## stack / unstack -/
 
